@@ -159,6 +159,7 @@ KEY_CHOICES = (
     ["element", "charge", "typesGH", "atom_map", "hcount", "aromatic", "neighbors"],
     ["atom_map", "element", "element", "no_such_key"],
     [],
+    ["typesGH", "atom_map", "charge", "element"],            # the default, permuted
 )
 
 
